@@ -1,4 +1,5 @@
 import SemVerif.Spec.Preds
+import SemVerif.Driver
 import SemVerif.Spec.Codec
 import SemVerif.Spec.CodecStack
 import SemVerif.Spec.Stats
@@ -8,27 +9,9 @@ def panicProj (r : Result) (s : String) : String := if r.panic.isSome then "pani
 
 /-- (failing instances on a result, projection of a result) for one property -/
 def evalProp (prop : String) (p : Program) (r : Result) (linksOk : Bool) : List String × String :=
-  let (tags, proj) : List String × String := match prop with
-  | "C01" => (P_C01 p r, pi_verdict r)
-  | "C02" => (P_C02 p r, pi_verdict r)
-  | "C03" => (P_C03 p r, pi_stacks (fun i => isValueInstr i || i.isEffect || (match i with | .exprConst _ _ => true | _ => false)) r)
-  | "C04" => (P_C04 p r, pi_stacks (fun _ => true) r ++ tablesStr r)
-  | "C05" => (P_C05 p r, pi_stacks isFlowInstr r)
-  | "C06" => (P_C06 p r, pi_stacks (fun _ => true) r)
-  | "C07" => (P_C07 p r, pi_stacks (fun i => match i with | .exprOp _ _ _ _ => true | _ => false) r)
-  | "C08" => (P_C08g p r, pi_stacks (fun i => i.writes.isSome || !i.reads.isEmpty) r)
-  | "C09" => (P_C09 r, pi_C09 r)
-  | "C10" => (P_C10 p r, pi_stacks isLabelInstr r)
-  | "C11" => (P_C11g p r, pi_stacks isReturnInstr r)
-  | "C12" => (P_C12g p r, pi_stacks isValueInstr r)
-  | "C13" => (P_C13 p r, "ok")
-  | "C14" => (P_C14 p r, pi_firstError r)
-  | "C15" => (P_C15 p r, pi_C15 r)
-  | "C18" => (if r.panic.isSome then [] else P_C18_shape p r linksOk ++ (if acceptedWF p r then P_C18_values p r else []),
-              pi_C18 r ++ " || " ++ " | ".intercalate (r.roots.map wBlock))
-  | "C19" => (P_C19 p r ++ P_C19_visited p r, pi_stacks (fun i => isExtInstr i || !i.reads.isEmpty) r)
-  | _ => (["unknown-property"], "")
-  (tags, panicProj r proj)
+  match PropId.ofString prop with
+  | some id => (failingOf id p r linksOk, panicProj r (projOf id r))
+  | none => (["unknown-property"], panicProj r "")
 
 /-- C20 on the implementation: the flags of the native round trips (harness `X` line) -/
 def c20Tags (flags : String) : List String :=
